@@ -1,6 +1,6 @@
 (* Entry points of the extracted model: one number per model function. *)
 From Coq Require Import ZArith List.
-From Tdda Require Import Base.Sexp RefTest.Argv RefTest.Tagged Serial.DateFmt RefTest.CheckStrings RefTest.Artefacts RefTest.Regen Constraints.Model Constraints.Detect Constraints.Serialise Constraints.Cli Rexpy.Coverage Rexpy.Wire Rexpy.Prng RefTest.FrameCmp Gentest.DateLike Gentest.Quote Gentest.Script.
+From Tdda Require Import Base.Sexp RefTest.Argv RefTest.Tagged Serial.DateFmt RefTest.CheckStrings RefTest.Artefacts RefTest.Regen Constraints.Model Constraints.Detect Constraints.Serialise Constraints.Cli Rexpy.Coverage Rexpy.Wire Rexpy.Prng Rexpy.Regex RefTest.FrameCmp Gentest.DateLike Gentest.Quote Gentest.Script.
 Import ListNotations.
 Open Scope Z_scope.
 
@@ -35,5 +35,6 @@ Definition dispatch (n : Z) (s : sexp) : sexp :=
   | 27 => testnames_entry s
   | 28 => generated_entry s
   | 29 => oracle_entry s
+  | 30 => regex_entry s
   | _ => L [A (-1)]
   end.
